@@ -45,6 +45,7 @@ func c16SmallFiles(tag string, maxLines int) [][]c16Line {
 }
 
 func runC16(ctx *core.Ctx) {
+	ctx.CrashLimit = c16CrashLimit
 	defer func() {
 		ctx.Wait()
 		os.RemoveAll("/dev/shm/" + filepath.Base(ctx.Scratch)) // see c16TreeBase
@@ -469,21 +470,24 @@ func c16OracleExhaustive(ctx *core.Ctx) {
 	}
 }
 
-// the recorded finding (Neg.missing_optional_skipped_false): an optional env file under a regular file
+// the repaired finding (Neg.missing_optional_skipped_false_pre): an env file under a regular file is missing —
+// skipped when optional, "not found" when required
 func c16OracleUnderFile(ctx *core.Ctx) {
 	for pos := 0; pos < 3; pos++ {
 		for st := 0; st < 4; st++ {
-			o := c16OracleArgs{Penv: map[string]string{"K2": "P.K2"}, Keys: []string{"K1", "K2"}, Environment: c16EnvState("K1", st), NoLoad: st%2 == 1, Discard: st >= 2}
-			for f := 0; f < 3; f++ {
-				tag := fmt.Sprintf("F%d", f+1)
-				l := c16Layer{Path: tag + ".env", Present: true, Required: true, Lines: c16FileLine(tag, "K1", 3, "K2")}
-				if f == pos {
-					l.Present, l.Required, l.UnderFile = false, false, true
+			for req := 0; req < 2; req++ {
+				o := c16OracleArgs{Penv: map[string]string{"K2": "P.K2"}, Keys: []string{"K1", "K2"}, Environment: c16EnvState("K1", st), NoLoad: st%2 == 1, Discard: st >= 2}
+				for f := 0; f < 3; f++ {
+					tag := fmt.Sprintf("F%d", f+1)
+					l := c16Layer{Path: tag + ".env", Present: true, Required: true, Lines: c16FileLine(tag, "K1", 3, "K2")}
+					if f == pos {
+						l.Present, l.Required, l.UnderFile = false, req == 1, true
+					}
+					o.EnvLayers = append(o.EnvLayers, l)
 				}
-				o.EnvLayers = append(o.EnvLayers, l)
+				ctx.Count("oracle-env-file-under-regular-file")
+				ctx.Add("c16.oracle", o)
 			}
-			ctx.Count("oracle-optional-under-regular-file")
-			ctx.Add("c16.oracle", o)
 		}
 	}
 }
